@@ -1466,3 +1466,101 @@ func c14AnalyseRelay(fn *ssa.Function, ms *ssa.MakeSlice, explored *int) *c14Rel
 	}
 	return rl
 }
+
+// ---------------------------------------------------------------------------
+// The fold read off the iteration paths
+
+// c14FoldOnPaths decides "v is folded into a running maximum" from the paths of one iteration of the loop that
+// computes v, for the shapes foldsAsMax (one compare, one branch, one merge) does not read: a test that is one
+// operand of a larger condition (`if err != nil || v > max { max = v }`), an inverted test with the update on the
+// other side, an update merged through several blocks. acc is a value the loop carries (a phi of its header), and on
+// EVERY iteration path that comes back to the header
+//   - without computing v, acc is carried over unchanged;
+//   - having computed v, the value carried on is v and the branch outcomes of the path say v > acc (v >= acc, v ==
+//     acc), or it is acc and the outcomes say v <= acc (v < acc, v == acc):
+//
+// i.e. the value carried on is max(acc, v) in every case, and at least one path takes v. Paths that leave the loop
+// (an error ends the query) are the business of the propagation rules. op is GTR when every path that takes v has
+// seen v > acc, else GEQ.
+func c14FoldOnPaths(fn *ssa.Function, v ssa.Value, explored *int) (op token.Token, acc *ssa.Phi, ok bool) {
+	vin, isIn := v.(ssa.Instruction)
+	if !isIn || vin.Block() == nil || !c14IsInt(v.Type()) {
+		return 0, nil, false
+	}
+	l := scanLoopOf(Loops(fn), vin.Block())
+	if l == nil || !l.Blocks[vin.Block()] {
+		return 0, nil, false
+	}
+	paths, complete := EnumIterPaths(fn, l, 500)
+	if !complete {
+		return 0, nil, false
+	}
+	if explored != nil {
+		*explored += len(paths)
+	}
+	flip := map[token.Token]token.Token{token.EQL: token.EQL, token.NEQ: token.NEQ, token.LSS: token.GTR, token.GTR: token.LSS, token.LEQ: token.GEQ, token.GEQ: token.LEQ}
+	for _, ph := range HeaderPhis(l) {
+		if !types.Identical(ph.Type(), v.Type()) {
+			continue
+		}
+		good, takes, strict := true, 0, true
+		for _, ip := range paths {
+			if ip.End != "back" {
+				continue
+			}
+			seen := map[*ssa.BasicBlock]bool{}
+			for _, b := range ip.Blocks[:len(ip.Blocks)-1] {
+				if seen[b] {
+					good = false // an inner cycle: the outcomes of the path belong to different rounds of it
+				}
+				seen[b] = true
+			}
+			if !good {
+				break
+			}
+			nv := ip.NextValue(ph)
+			if !ip.OnPath(vin) {
+				if nv != ssa.Value(ph) {
+					good = false
+					break
+				}
+				continue
+			}
+			// what the outcomes of this path say about v and acc: `v op acc`
+			rel := map[token.Token]bool{}
+			for _, g := range ip.Conds {
+				x, y, o, okF := CmpFact(g.Cond, g.True)
+				if !okF {
+					continue
+				}
+				rx, ry := ip.ResolveAt(x), ip.ResolveAt(y)
+				switch {
+				case rx == v && ry == ssa.Value(ph):
+					rel[o] = true
+				case rx == ssa.Value(ph) && ry == v:
+					rel[flip[o]] = true
+				}
+			}
+			switch {
+			case nv == v && rel[token.GTR]:
+				takes++
+			case nv == v && (rel[token.GEQ] || rel[token.EQL]):
+				takes++
+				strict = false
+			case nv == ssa.Value(ph) && (rel[token.LEQ] || rel[token.LSS] || rel[token.EQL]):
+			default:
+				good = false
+			}
+			if !good {
+				break
+			}
+		}
+		if good && takes > 0 {
+			if strict {
+				return token.GTR, ph, true
+			}
+			return token.GEQ, ph, true
+		}
+	}
+	return 0, nil, false
+}
